@@ -63,7 +63,7 @@ META = {
                         'S3 content filter on JSON-decoded metadata'],
     'components_stub': ['S3 bucket', 'uuid / clock'],
     'budgets': {'quick': {'seconds': 20}, 'thorough': {'seconds': 300}},
-    'required_probes': {'quick': ['table_filter'], 'thorough': ['table_filter', 'random_case', 'conjunction']},
+    'required_probes': {'quick': ['table_filter'], 'thorough': ['table_filter', 'random_case', 'conjunction', 'concurrent_matching']},
 }
 
 
@@ -187,9 +187,66 @@ def random_case(tape):
     return run
 
 
+def concurrent_matching(tape):
+    """Two threads (two lookups served by one process) match filters at the same time under the seeded line-level
+    scheduler; every answer must still be the documented one."""
+    import os
+    from simkit import REPO
+    from simkit.sim import Sim, SimDeadlock
+    run = Run(PROP)
+    run.probe('concurrent_matching')
+    sim = Sim(tape, run, preempt_p=tape.choice([0.1, 0.3, 0.6]), target_files=[os.path.join(REPO, 'playback', 'tape_cassette.py')], max_steps=100000)
+    jobs = []
+    for t in range(2):
+        cases = []
+        for _ in range(2 + tape.draw(4)):
+            filt = {'name': tape.choice(['a*', '*b', '?', '[a-c]*', 'ab', 'a', 'b*', '*'])} if tape.draw(3) else dict((tape.choice(S.META_KEYS), gen_filter_value(tape)) for _ in range(1 + tape.draw(2)))
+            md = S.gen_metadata(tape)
+            if tape.draw(2):
+                md['name'] = tape.choice(['a', 'ab', 'abc', 'b', 'cab', ''])
+            cases.append((filt, md))
+        jobs.append(cases)
+    results = {}
+
+    def worker(t, cases):
+        def body():
+            out = []
+            for filt, md in cases:
+                try:
+                    out.append(TapeCassette.match_against_recorded_metadata(copy.deepcopy(filt), copy.deepcopy(md)))
+                except Exception as ex:
+                    out.append(ex)
+            results[t] = out
+        return body
+
+    def main():
+        tasks = [sim.spawn(worker(t, cases), name='matcher%d' % t) for t, cases in enumerate(jobs)]
+        for tk in tasks:
+            sim.join(tk)
+    try:
+        sim.run_main(main)
+    except SimDeadlock as ex:
+        run.violate('never_raises', 'deadlock', str(ex))
+        return run
+    run.nontrivial = sim.switches > 2
+    for t, cases in enumerate(jobs):
+        for (filt, md), got in zip(cases, results.get(t, [])):
+            exp = expected(filt, md)
+            if isinstance(got, Exception):
+                o = R.origin_note(got)
+                run.violate('never_raises', 'matcher-raised-concurrently:%s@%s' % (o[0], o[1]), 'two threads matching at the same time: filter %s metadata %s raised %r' % (V.short(filt, 100), V.short(md, 100), got))
+            elif exp is not None and got != exp:
+                run.violate('means_what_is_documented', 'wrong-answer-under-concurrency', 'two threads matching at the same time: filter %s metadata %s answered %s, documented meaning gives %s' % (
+                    V.short(filt, 100), V.short(md, 100), got, exp))
+    run.ev('concurrent', [[(V.srepr(f), V.srepr(m)) for f, m in c] for c in jobs], sim.switches, [v.signature for v in run.violations])
+    return run
+
+
 def run_tape(tape):
     with seams.deterministic(tape) as clock:
-        mode = tape.draw(2)
+        mode = tape.draw(3)
+        if mode == 2:
+            return concurrent_matching(tape)
         if mode == 1:
             return table_filter(tape, clock)
         return random_case(tape)
@@ -203,5 +260,5 @@ def run_index(i, seed, tier, emit):
             emit(safe_run_tape(mod, t), t)
         return
     for k in range(200):
-        t = Tape(seed + k, prefix=[0])
+        t = Tape(seed + k, prefix=[0 if k % 5 else 2])
         emit(safe_run_tape(mod, t), t)
